@@ -87,6 +87,15 @@ func c03run(line string) (string, []string) {
 			return "ok " + hx(b)
 		})
 		return res, viol
+	case "dir_deser_chk":
+		raw := unhx(t.s())
+		return guarded(func() string {
+			got, err := pmtiles.VerifDeserializeEntriesChecked(raw, pmtiles.NoCompression)
+			if err != nil {
+				return "err"
+			}
+			return "ok " + entsStr(fromImpl(got))
+		}), nil
 	case "dir_deser", "dir_deser_gz":
 		raw := unhx(t.s())
 		res := guarded(func() string {
@@ -98,6 +107,12 @@ func c03run(line string) (string, []string) {
 			}
 			return "ok " + entsStr(fromImpl(got))
 		})
+		if op == "dir_deser" { // the checked decoder must agree with the exported one and reject what the spec decoder rejects
+			_, cerr := pmtiles.VerifDeserializeEntriesChecked(raw, pmtiles.NoCompression)
+			if _, serr := specDecodeDir(raw); serr == nil && cerr != nil {
+				viol = append(viol, "a spec-conforming directory is rejected by the checked decoder: "+cerr.Error())
+			}
+		}
 		// oracle: a well-formed spec encoding must be read to what the spec decoder reads
 		if want, err := specDecodeDir(raw); err == nil && ascendingOK(want) {
 			if res != "ok "+entsStr(want) {
@@ -173,6 +188,7 @@ func c03(r *rng, tier string, o *out) {
 		}
 		emit("dir_deser "+hx(specEncodeDir(es, true)), nt, "deser_shorthand")
 		emit("dir_deser "+hx(specEncodeDir(es, false)), nt, "deser_plain")
+		emit("dir_deser_chk "+hx(specEncodeDir(es, true)), nt, "deser_chk")
 		if c%4 == 1 {
 			emit("dir_deser_gz "+hx(specEncodeDir(es, r.chance(50))), nt, "deser_gz")
 		}
@@ -194,12 +210,17 @@ func c03(r *rng, tier string, o *out) {
 					m[r.intn(len(m))] = byte(r.next())
 				}
 			case 2:
-				m = append(specPutUvarint(nil, uint64(r.intn(3000))), r.bytes(r.intn(30))...)
+				cnt := uint64(r.intn(3000))
+				if r.chance(40) {
+					cnt = r.next() >> uint(r.intn(64)) // counts up to 2^64-1: must be rejected without allocation
+				}
+				m = append(specPutUvarint(nil, cnt), r.bytes(r.intn(30))...)
 			case 3:
 				m = append(bytes.Repeat([]byte{0xff}, 9+r.intn(4)), r.bytes(r.intn(10))...)
 				m = append([]byte{byte(1 + r.intn(5))}, m...)
 			}
 			emit("dir_deser "+hx(m), true, "deser_malformed")
+			emit("dir_deser_chk "+hx(m), true, "deser_chk_malformed")
 		}
 	}
 	_ = strings.Join
